@@ -163,4 +163,44 @@ theorem pix_inbounds (I : Pattern ℝ) (h w : Nat) (y x : ℤ) (hy0 : 0 ≤ y) (
   rw [if_pos]
   exact ⟨hy0, hy, hx0, hx⟩
 
+/-! ### helpers for the parabola / translation theorems -/
+
+theorem mem_raster (nx ny a b : Nat) (ha : a < nx) (hb : b < ny) :
+    (((a : ℝ), (b : ℝ)) : ℝ × ℝ) ∈ (rasterPositions nx ny : List (ℝ × ℝ)) := by
+  unfold rasterPositions
+  rw [List.mem_flatMap]
+  refine ⟨a, List.mem_range.mpr ha, ?_⟩
+  rw [List.mem_map]
+  exact ⟨b, List.mem_range.mpr hb, by simp [NumReal.ofNat_eq]⟩
+
+theorem parabola_eval (θ : List ℝ) (x y : ℝ) :
+    surfaceF .parabola θ (x, y) = θ.getD 0 0 + θ.getD 1 0 * x + θ.getD 3 0 * y + θ.getD 2 0 * (x * x)
+      + θ.getD 4 0 * (y * y) + θ.getD 5 0 * x * y := by
+  simp [surfaceF, NumReal.zero_eq]
+
+theorem zipIdx_moment {β : Type} (g : β → ℝ) : ∀ (l : List β) (k : ℕ),
+    ((l.zipIdx k).map (fun p => (p.2 : ℝ) * g p.1)).sum
+      = ((l.zipIdx).map (fun p => (p.2 : ℝ) * g p.1)).sum + (k : ℝ) * (l.map g).sum := by
+  intro l
+  induction l with
+  | nil => intro k; simp
+  | cons x xs ih =>
+    intro k
+    simp only [List.zipIdx_cons, List.map_cons, List.sum_cons]
+    rw [ih (k + 1), ih (0 + 1)]
+    push_cast; ring
+
+theorem sum_map_add_mul (c : ℝ) (f g : List ℝ → ℝ) (I : List (List ℝ)) (h : ∀ row, f row = g row + c * row.sum) :
+    (I.map f).sum = (I.map g).sum + c * (I.map List.sum).sum := by
+  induction I with
+  | nil => simp
+  | cons r rs ih => simp only [List.map_cons, List.sum_cons]; rw [h r, ih]; ring
+
+theorem sum_replicate_zero_append (b : ℕ) (row : List ℝ) :
+    (List.replicate b (0 : ℝ) ++ row).sum = row.sum := by
+  induction b with
+  | zero => simp
+  | succ b ih => simpa [List.replicate_succ] using ih
+
+
 end QuantemModel.Origin
